@@ -229,7 +229,7 @@ pub fn c09(tier: &str, seed: u64) -> i32 {
     }
     eprintln!("[C09] arithmetic sweep: values={} key evaluations={} ok={probe_ok} {:.1}s", ctx.run.get("arith_value_lengths"), ctx.run.get("arith_key_evaluations"), ctx.run.elapsed() - t0);
     // (b) end-to-end
-    let mut val_lens: Vec<u64> = (0..=if thorough { 4200 } else { 1100 }).collect();
+    let mut val_lens: Vec<u64> = (0..=if thorough { 20_000 } else { 1100 }).collect();
     for c in [4096u64, 131072, 1048576] {
         let w = if thorough { 40 } else { 6 };
         val_lens.extend((c - w)..=(c + w));
@@ -243,7 +243,7 @@ pub fn c09(tier: &str, seed: u64) -> i32 {
         val_lens.extend((16 * 1024 * 1024 - 3)..=(16 * 1024 * 1024));
         val_lens.extend([8192 - 1, 8192, 65536, 65537, 262144 - 8, 262144]);
     }
-    let mut key_lens: Vec<u64> = (0..=if thorough { 4200 } else { 1100 }).collect();
+    let mut key_lens: Vec<u64> = (0..=if thorough { 20_000 } else { 1100 }).collect();
     key_lens.extend((65536 - if thorough { 40 } else { 4 })..=65536);
     key_lens.extend([4095, 4096, 4097, 16383, 16384, 32768]);
     // a key record of 128 KiB (three-byte size field); thorough: also a key of 2 MiB (four-byte length field)
@@ -546,16 +546,16 @@ fn c10_conversions<T: IntKey>(dom: &[u64], evals: &mut u64) -> Result<(), (Strin
     Ok(())
 }
 
-/// thorough tier: the x-th member of range `r` (four ranges of 2^30 integers each)
+/// thorough tier: the x-th member of range `r` (four ranges of 2^32 integers each)
 fn c10_range_member(r: u8, i: u64) -> u64 {
     match r {
         0 => i,
-        1 => (1u64 << 63).wrapping_sub(1 << 29).wrapping_add(i),
-        2 => (0u64).wrapping_sub(1 << 30).wrapping_add(i),
+        1 => (1u64 << 63).wrapping_sub(1 << 31).wrapping_add(i),
+        2 => (0u64).wrapping_sub(1 << 32).wrapping_add(i),
         _ => i.wrapping_mul(0x9E37_79B9_7F4A_7C15),
     }
 }
-const C10_RANGES: [&str; 4] = ["0 .. 2^30", "2^63-2^29 .. 2^63+2^29 (the i64 sign change)", "2^64-2^30 .. 2^64 (the small negative i64)", "i * 0x9E3779B97F4A7C15 mod 2^64 for i < 2^30 (all byte positions and all vu64 lengths)"];
+const C10_RANGES: [&str; 4] = ["0 .. 2^32", "2^63-2^31 .. 2^63+2^31 (the i64 sign change)", "2^64-2^32 .. 2^64 (the small negative i64)", "i * 0x9E3779B97F4A7C15 mod 2^64 for i < 2^32 (all byte positions and all vu64 lengths)"];
 const C10_CHUNK: u64 = 1 << 24;
 
 fn c10_range_one<T: IntKey>(x: u64) -> Option<String> {
@@ -1028,11 +1028,11 @@ pub fn c10(tier: &str, seed: u64) -> i32 {
     }
     let mut swept = 0u64;
     if ctx.run.thorough() && ctx.run.violations.is_empty() {
-        // four ranges of 2^30 integers each, per integer key type, in blocks of 2^24
+        // four ranges of 2^32 integers each, per integer key type, in blocks of 2^24
         let mut rjobs: Vec<Vec<u8>> = Vec::new();
         for t in 0..3u8 {
             for rg in 0..4u8 {
-                for chunk in 0..((1u64 << 30) / C10_CHUNK) {
+                for chunk in 0..((1u64 << 32) / C10_CHUNK) {
                     let mut b = Buf::new();
                     b.u8(JOB_F_C10).u8(100 + t).u8(1).u8(rg).u64(chunk);
                     rjobs.push(b.0);
@@ -1066,7 +1066,7 @@ pub fn c10(tier: &str, seed: u64) -> i32 {
         }
         evals += swept;
         nt += swept;
-        ctx.run.set("range_sweep", J::s(&format!("thorough tier: per integer key type every member of four ranges of 2^30 integers ({}): by value = by reference, integer -> key -> integer and integer -> key -> stored bytes -> key -> integer are the identity (hence the encodings of different integers differ); {swept} conversions checked", C10_RANGES.join("; "))));
+        ctx.run.set("range_sweep", J::s(&format!("thorough tier: per integer key type every member of four ranges of 2^32 integers ({}): by value = by reference, integer -> key -> integer and integer -> key -> stored bytes -> key -> integer are the identity (hence the encodings of different integers differ); {swept} conversions checked", C10_RANGES.join("; "))));
         eprintln!("[C10] range sweep: {swept} integers x conversions");
     }
     let dom = int_domain(full);
